@@ -18,6 +18,7 @@ package main
 import (
 	"bufio"
 	"encoding/json"
+	"errors"
 	"flag"
 	"fmt"
 	"io"
@@ -137,6 +138,17 @@ func (m *master) write(line []byte) {
 	m.out.Write(line)
 	m.out.WriteByte('\n')
 	m.mu.Unlock()
+}
+
+// signalled reports a process that was ended by a signal (as opposed to an exit status of its own).
+func signalled(err error) bool {
+	var ee *exec.ExitError
+	if errors.As(err, &ee) {
+		if ws, ok := ee.Sys().(syscall.WaitStatus); ok {
+			return ws.Signaled()
+		}
+	}
+	return false
 }
 
 // runChunk executes the vectors [from, to) in worker processes.  A worker that reports a hang
@@ -269,6 +281,11 @@ func (m *master) runChunk(c chunk) {
 			m.crashes++
 			m.mu.Unlock()
 			from = last + 1
+		case signalled(err) && retries[-1000000-last] < 2:
+			// the worker was ended by a signal nobody in this process sent (an operator's pkill, the OOM killer):
+			// an event of the machine, not of the code under test: run the rest of the chunk again from that vector
+			retries[-1000000-last]++
+			from = last
 		default:
 			txt := stderr.String()
 			if len(txt) > 2000 {
